@@ -50,6 +50,7 @@ CHECKS = {
          "exploration; deterministic leak probe rounds in every case", "a leak must change a returned value, let a reader succeed or change what the host sees", "4 C15"),
 }
 PENDING = {}
+HANG = {"C04", "C05", "C07", "C11", "C12", "C13", "C14", "C16", "C18"}
 
 def main():
     props = [json.loads(l) for l in open(os.path.join(ROOT, "properties.jsonl"))]
@@ -66,7 +67,7 @@ def main():
                 "replay_cmd_template": "./check %s --replay {path}" % i,
                 "engine": eng,
                 "level_claimed": {"category": lvl, "text": text, "design_ref": "DESIGN.md section " + ref},
-                "level_note": note or "held on the executions observed; see evidence file for counts",
+                "level_note": (note or "held on the executions observed; see evidence file for counts") + (". A case that does not finish within its progress bound is reported as a violation (bounded-progress restatement, DESIGN 2.5)." if i in HANG else ""),
                 "technique": tech,
             })
         else:
